@@ -69,3 +69,18 @@ LEVEL["C14"] = ("Sibling agreement of the filter predicate across the collecting
 NOTE["C14"] = ("Not decided: ResultsPage arithmetic, facet key values, column- vs posting-backed categorizer agreement "
                "(value-level). CollapseCollector's count path is a known finding (two entries). Wrapping collectors "
                "capturing child.matcher before replace() (design C14-R4) is not armed: no witness found.")
+LEVEL["C15"] = ("Constructor/equality completeness over the 52 query classes: match-relevant constructor parameters are "
+                "compared or hashed (normalize() de-duplicates through a set) and are passed on by every "
+                "self.__class__(...) in normalize/apply/with_boost/_rewrap/simplify, checked per concrete subclass that "
+                "inherits the method; clause absorption and range merging must be conditioned on the operator; "
+                "normalize() has no explicit raise and only calls what every query class defines.")
+NOTE["C15"] = ("Not decided: semantic equivalence on data, idempotence, estimate_size bounds. Score-only parameters "
+               "(scale, tiebreak, per_parent_limit, score_fn, ...) are outside the match-set property. Operator-blind "
+               "absorption/merge in normalize() are genuine defects pinned by tests (known findings).")
+LEVEL["C16"] = ("Escape-by-enumeration: every explicit raise in parse-time code is QueryParserError or a reviewed "
+                "unreachable check; every call into a field's parse hook is fenced by a catch-all that yields an error "
+                "query; matcher-building code raises only QueryError and looks fields up after a membership test "
+                "(interprocedurally through matcher()); the operator table is in the documented binding order; tagging is total.")
+NOTE["C16"] = ("Not decided: that the parsed tree selects the intended documents; implicit exceptions (IndexError, "
+               "TypeError from arithmetic on node lists) are invisible to this analysis -- e.g. the pre-existing "
+               "'NOT NOT x' IndexError and value-level operator tables such as GtLtPlugin.make_range are out of reach.")
